@@ -273,7 +273,8 @@ package goldilocks
 //@ func (p *Chip) MulAddExtension(a QuadraticExtensionVariable, b QuadraticExtensionVariable, c QuadraticExtensionVariable) (res QuadraticExtensionVariable)
 //@   props C05 C08
 //@   circuit
-//@   requires chipok(p) && canonQE(a) && canonQE(b) && canonQE(c)
+//@   requires chipok(p) && canonQE(b) && canonQE(c)
+//@   requires 0 <= a[0].Limb && a[0].Limb <= P*P && 0 <= a[1].Limb && a[1].Limb <= P*P
 //@   ensures canonQE(res)
 //@   ensures res == qe_muladd(a, b, c)
 
@@ -346,10 +347,16 @@ package goldilocks
 //@ def qe_negc(x) = (x * (P - 1)) % P
 //@ def qe_norm(a) = (a[0]*a[0] + 7*qe_negc(a[1])*a[1]) % P
 
+// 7 is a quadratic non-residue modulo P, so the norm a0^2 - 7 a1^2 of a non-zero element is non-zero.
+// Number theory, assumed (listed in the evidence); with it hasInv is always 1 for an accepted argument.
+//@ axiom qe_norm_nonzero(a0, a1) = implies(0 <= a0 && a0 < P && 0 <= a1 && a1 < P && !(a0 == 0 && a1 == 0), (a0*a0 + 7*((a1 * (P - 1)) % P)*a1) % P != 0)
+
 //@ func (p *Chip) InverseExtension(a QuadraticExtensionVariable) (res QuadraticExtensionVariable, hasInv frontend.Variable)
 //@   props C05 C08
 //@   circuit
 //@   requires chipok(p) && canonQE(a)
+//@   use qe_norm_nonzero(a[0].Limb, a[1].Limb)
+//@   ensures hasInv == 1
 //@   honest !(a[0].Limb == 0 && a[1].Limb == 0)
 //@   ensures !(a[0].Limb == 0 && a[1].Limb == 0)
 //@   ensures canonQE(res)
@@ -362,6 +369,7 @@ package goldilocks
 //@   props C05 C08
 //@   circuit
 //@   requires chipok(p) && canonQE(a) && canonQE(b)
+//@   ensures hasInv == 1
 //@   honest !(b[0].Limb == 0 && b[1].Limb == 0)
 //@   ensures !(b[0].Limb == 0 && b[1].Limb == 0)
 //@   ensures canonQE(res)
@@ -470,3 +478,17 @@ package goldilocks
 //@   ensures tuple(res0, res1) == qea_pint(domain, values, barycentricWeights, point, initialEval, initialPartialProd, len(values))
 //@   loop 0 invariant 0 <= i && i <= n && n == len(values) && n == len(domain) && n == len(barycentricWeights) && canonQEA(newEval) && canonQEA(newPartialProd) &&
 //@        tuple(newEval, newPartialProd) == qea_pint(domain, values, barycentricWeights, point, initialEval, initialPartialProd, i)
+
+// k-fold squaring: sq(x, 0) = x, sq(x, k) = sq(x, k-1)^2
+//@ def gl_sqr(y) = (y * y) % P
+//@ recdef gl_sq_iter0(x int, k int) int = ite(k <= 0, x, gl_sqr(gl_sq_iter0(x, k - 1)))
+// P is prime: a non-zero residue has a non-zero square.  Number theory, assumed (listed in the evidence).
+//@ axiom gl_square_nonzero(x) = implies(0 < x && x < P, (x * x) % P != 0)
+//@ func PrimitiveRootOfUnity(nLog uint64) (res goldilocks.Element)
+//@   props C13
+//@   plain
+//@   requires nLog <= 32
+//@   ensures 0 < res && res < P
+//@   ensures res == gl_sq_iter0(1753635133440165772, 32 - nLog)
+//@   loop 0 invariant 0 <= i && i <= 32 - nLog && 0 < res && res < P && res == gl_sq_iter0(1753635133440165772, i)
+//@   loop 0 use gl_square_nonzero(res)
